@@ -24,6 +24,7 @@ type Obligation struct {
 	Unit     *Unit
 	Props    []string
 	FuncKey  string
+	Advisory bool     // a cover whose failure is reported as a note, not as a violation
 	Extra    []string // extra assertions local to this obligation
 	Parts    []string // when set: the goal is the conjunction of these; each part is solved separately
 	Internal string   // if set the obligation could not be generated: reason (undecided)
@@ -539,6 +540,19 @@ func (u *Unit) heapTypingA(key, c, allocBound string) {
 				u.emit("(assert (forall ((r Int)) (! %s :pattern (%s))))", b, el)
 				u.typingLines[len(u.lines)-1] = true
 			}
+		case strings.HasPrefix(key, "MapVal."):
+			// values stored in maps (the array is total: entries of absent keys are never observed)
+			srt := u.keySort[key]
+			if strings.HasPrefix(srt, "(Array Int (Array ") {
+				rest := strings.TrimPrefix(srt, "(Array Int (Array ")
+				// key sort: up to the value sort, which is the last token group; take by balanced scan
+				ks := firstSort(rest)
+				el := "(select (select " + c + " r) k!m)"
+				if b := bound(el); b != "" && ks != "" {
+					u.emit("(assert (forall ((r Int) (k!m %s)) (! %s :pattern (%s))))", ks, b, el)
+					u.typingLines[len(u.lines)-1] = true
+				}
+			}
 		}
 	}
 	I := u.mode.idxSort()
@@ -596,4 +610,31 @@ func (o *Obligation) HasPlus() bool {
 		}
 	}
 	return false
+}
+
+// firstSort returns the first complete sort expression at the start of s
+func firstSort(s string) string {
+	s = strings.TrimSpace(s)
+	if s == "" {
+		return ""
+	}
+	if s[0] != '(' {
+		if i := strings.IndexAny(s, " )"); i >= 0 {
+			return s[:i]
+		}
+		return s
+	}
+	depth := 0
+	for i := 0; i < len(s); i++ {
+		switch s[i] {
+		case '(':
+			depth++
+		case ')':
+			depth--
+			if depth == 0 {
+				return s[:i+1]
+			}
+		}
+	}
+	return ""
 }
